@@ -9,7 +9,7 @@
      <k> S h                           I total trl ninit ncal fails   (requests of the fault-free call: total, of solve_init alone, of calibration_alloc alone; a kernel gives up)
      <k> F h                           I
      <k> end                           (no I line)
-   A first argument "variant=<NFixed|NClearDangling|NHoldEarly|NSplineLate>" selects the model variant.
+   A first argument "variant=<NFixed|NClearDangling|NHoldEarly|NSplineLate|NWriteBackLate>" selects the model variant.
    Output per op, as the harness:  R <Done|Err> <errno> <live> <requests> | <held:freqs:gamma>... | <per handle> *)
 open MODELS
 let rec nat_of_int n = if n <= 0 then O else S (nat_of_int (n - 1))
@@ -43,6 +43,7 @@ let () =
       | "variant=NClearDangling" -> nv := NClearDangling
       | "variant=NHoldEarly" -> nv := NHoldEarly
       | "variant=NSplineLate" -> nv := NSplineLate
+      | "variant=NWriteBackLate" -> nv := NWriteBackLate
       | _ -> ()) Sys.argv;
   let w = ref None and st = ref (start None) in
   let finish () =
